@@ -439,10 +439,10 @@ func checkRace(c *facet.Ctx, in RaceIn) error {
 		c.Skip()
 		return nil
 	}
-	want := make([][]string, len(in.Seqs))
-	for i, s := range in.Seqs {
-		want[i] = readOnly(pool, s)
-	}
+	// The goroutines run FIRST, on values nothing has touched since they were
+	// built: lazily initialised shared state (a memo filled on first use) would
+	// otherwise already be filled by the sequential pass and no unsynchronised
+	// write would remain for the race detector to see.
 	got := make([][]string, in.G)
 	var wg sync.WaitGroup
 	start := make(chan struct{})
@@ -456,6 +456,10 @@ func checkRace(c *facet.Ctx, in RaceIn) error {
 	}
 	close(start)
 	wg.Wait()
+	want := make([][]string, len(in.Seqs))
+	for i, s := range in.Seqs {
+		want[i] = readOnly(pool, s)
+	}
 	c.Labelf("goroutines=%d", in.G)
 	if in.G >= 2 && heavy > 0 {
 		c.NonTrivial()
